@@ -8,12 +8,14 @@ import common
 import rfigc_util as ru
 from common import hx
 
-LEAN_MODULES = ["Pff.Props.C05", "Pff.Props.Csv", "Pff.Props.Path"]
+LEAN_MODULES = ["Pff.Props.C05", "Pff.Props.Csv", "Pff.Props.Path", "Pff.Props.RfigcDb"]
 PROP_MODULE = "Pff.Props.C05"
 THEOREMS = ["Pff.Rfigc.C05_rule", "Pff.Rfigc.C05_clean", "Pff.Rfigc.C05_exact", "Pff.Rfigc.C05_single",
             "Pff.Csv.C05_csv_roundtrip",
             "Pff.Csv.C05_csv_cr_witness",
             "Pff.Csv.C05_db_roundtrip",
+            "Pff.RfigcDb.C05_hex_roundtrip", "Pff.RfigcDb.C05_row_roundtrip", "Pff.RfigcDb.C05_db_file_roundtrip",
+            "Pff.RfigcDb.C05_pipeline", "Pff.RfigcDb.C05_pipeline_clean",
             "Pff.Path.PATH_abspath_good", "Pff.Path.PATH_gen_root_independent", "Pff.Path.PATH_mount_eq", "Pff.Path.PATH_join_injective",
             "Pff.Path.PATH_lookup_relocated", "Pff.Path.PATH_relFS_nodup", "Pff.Path.PATH_single_file"]
 MODELLED = [("pyFileFixity/rfigc.py", "main"), ("pyFileFixity/rfigc.py", "generate_hashes"), ("pyFileFixity/lib/_compat.py", "_csv_writer")]
@@ -31,6 +33,10 @@ RULE = ("trees of 1-6 files with csv-hostile printable names (|, quotes, spaces,
         "{bit flip with size+mtime restored at offsets incl. 0/65535/65536/last, md5-colliding twin (same md5, size and time), append, truncate, delete, rename, touch}, option combinations "
         "(-m, --skip_missing, --skip_hash), folder and single-file input, original and relocated (copy2) root; non-trivial = at least one "
         "mutation; distinct = distinct request")
+
+
+def cps(s):
+    return ".".join(str(ord(c)) for c in s) or "-"
 
 
 def mutate(rng, tree):
@@ -99,6 +105,21 @@ def run(oc, tier, seed, model_available, escalate):
             t2["twin.bin"] = (ru.MD5_TWINS[1] + suffix, ru.BASE_NS)
         else:
             t2, touched, kinds = mutate(rng, tree) if i % 5 else (dict(tree), set(), [])
+        if i % 4 == 0:
+            # ---- the database file itself: header and the fields of every row as the tool wrote them vs the model of the file (Pff.RfigcDb)
+            raw = ru.read_rows(db)
+            if raw:
+                lines.append("rfdbhdr")
+                impl.append(",".join(cps(x) for x in raw[0]))
+                for r_ in raw[1:]:
+                    if len(r_) != 7:
+                        continue
+                    try:
+                        lines.append("rfdbrow %s %d %d 0 %d %s" % (hx(r_[0].encode()), int(r_[1], 16), int(r_[2], 16), int(r_[5]), hx(r_[6].encode())))
+                    except ValueError:
+                        continue
+                    impl.append(",".join(cps(x) for x in (r_[0], r_[1], r_[2], "0", "", r_[5], r_[6])) + " roundtrip")
+                    oc.count("database file: rows compared field by field")
         relocated = rng.random() < 0.4
         chk_root = os.path.join(d, "moved here") if relocated else root
         if relocated:
